@@ -118,6 +118,9 @@ class Builder:
                     setattr(obj, f, self.conv(x))
                 except AttributeError:
                     pass
+            if cls == 'Job' and not hasattr(obj, '_mutex'):
+                import threading
+                obj._mutex = threading.Lock()        # not part of the model: the handle's own lock (free)
             return obj
         return v
 
